@@ -28,6 +28,7 @@ class TriggerVariable {
         }
         std::lock_guard<std::mutex> lock(activeLock);
         activated = true;
+        ++activationCount;
         cv_active.notify_all();
         return true;
     }
@@ -78,7 +79,12 @@ been activated yet*/
     {
         std::unique_lock<std::mutex> lk(activeLock);
         if (!activated) {
-            cv_active.wait(lk, [this] { return activated.load(); });
+            // an activation that is taken back by reset() before this thread
+            // gets to run again still counts
+            const auto seen = activationCount;
+            cv_active.wait(lk, [this, seen] {
+                return activated.load() || activationCount != seen;
+            });
         }
     }
     /** wait for a period of time for the value to trigger*/
@@ -86,8 +92,9 @@ been activated yet*/
     {
         std::unique_lock<std::mutex> lk(activeLock);
         if (!activated) {
-            return cv_active.wait_for(lk, duration, [this] {
-                return activated.load();
+            const auto seen = activationCount;
+            return cv_active.wait_for(lk, duration, [this, seen] {
+                return activated.load() || activationCount != seen;
             });
         }
         return true;
@@ -117,6 +124,8 @@ trigger to occur and then be reset
     std::atomic_bool activated{
         false};  //!< variable controlling if the trigger has been activated
     mutable std::mutex activeLock;  //!< mutex protecting the activation
+    unsigned int activationCount{
+        0};  //!< number of activations so far (protected by activeLock)
     mutable std::condition_variable cv_trigger;  //!< semaphore for the
                                                  //!< trigger
     mutable std::condition_variable cv_active;  //!< semaphore for the
